@@ -6,6 +6,7 @@ import OpdaProofs.RectProb
 import OpdaProofs.RectVolume
 import OpdaProofs.RectBand
 import OpdaProofs.RectPIT
+import OpdaProofs.OrderStatBeta
 /-!
 # C01 — CDF confidence bands attain their nominal simultaneous coverage  (partial)
 
@@ -26,11 +27,24 @@ What is proved:
   for independent draws is `n` independent uniforms (`pit_product`), and the probability under `ν^{⊗n}` that the band
   with the given level tables contains `F` at every `t` is `coverage α β` — the same number for every such `ν`
   (`band_coverage_any_continuous_F`).
+* **the Beta law of a simulated order statistic (ld methods)**: for `N` independent uniforms the `k`-th (0-based)
+  order statistic has distribution function `Σ_{j=k+1}^{N} C(N,j) t^j (1−t)^{N−j}` (`uniform_order_statistic_cdf`), which
+  is C15's Beta(k+1, N−k) distribution function `G`, the integral of the normalised Beta density
+  (`uniform_order_statistic_is_beta`); for `N` independent draws `T₁..T_N` from ANY probability measure with continuous
+  distribution function `F`, `F(T₍ₖ₎)` has that same Beta(k+1, N−k) law (`simulated_critical_value_coverage_is_beta`),
+  and the coverage `F(c)` of any critical value `c` between `T₍ₖ₎` and `T₍ₖ'₎` — in particular of the linear
+  interpolation `np.quantile` returns — has a distribution function between those of Beta(k'+1, N−k') and
+  Beta(k+1, N−k) (`interpolated_critical_value_coverage_between_betas`).
 What is evaluated on every run: `coverage` in exact ℚ on the level tables read off the code's output (dkw `≥ c`,
 ks `= c ± 1e-12`, ld inside the stated Beta interval).  Steck's determinant (`OpdaModel/Steck.lean`, identity cited,
 not proved) is no longer in the trusted base: it is evaluated alongside and must give the same rational.
-Still cited / not formalised: DKW–Massart, the Kolmogorov–Smirnov law inside scipy, the Beta law of the simulated
-critical value's coverage.  (The probability integral transform is no longer cited: it is `pit_map` / `pit_product`.)
+Still cited / not formalised: DKW–Massart, the Kolmogorov–Smirnov law inside scipy.  For the ld methods what remains
+outside Lean is (i) that the simulated statistic `max_i cov_i(U₍ᵢ₎)` has a continuous distribution function (the
+hypothesis `Continuous (cdfOf ν)` of the Beta theorems, instantiated with the law `ν` of the statistic), (ii) that the
+code's `np.quantile(ts, confidence)` is the interpolated order statistic the theorem speaks about, and (iii) the
+numerical Beta quantiles (`scipy.stats.beta.ppf`) the harness uses for its acceptance window.  (The probability integral
+transform is no longer cited: it is `pit_map` / `pit_product`; the Beta law of an order statistic is no longer cited:
+it is `uniform_order_statistic_is_beta` / `simulated_critical_value_coverage_is_beta`.)
 -/
 namespace Opda.Props.C01
 open Opda.Band
@@ -267,6 +281,114 @@ example : ∃ (ν : Measure ℝ) (_ : IsProbabilityMeasure ν), Continuous (cdfO
     @Opda.RectProbP.cdfOf_continuous_of_nullSingleton _ ⟨by simp⟩ inferInstance⟩
 
 end pit
+
+/-! ### ld methods: the coverage of a simulated order statistic follows a Beta law -/
+section beta
+open Opda.RectProb Opda.RectProbP MeasureTheory Opda.BetaCheck Opda.BetaBinom
+open scoped Finset
+
+/-- **the number of draws below `t` is binomial**: for `N` independent draws from a σ-finite `ν` on `ℝ`, the probability
+that at least `m` of them are `≤ t` is `Σ_{S ⊆ {1..N}, |S| ≥ m} ν(-∞,t]^{|S|} · ν(t,∞)^{N−|S|}` (the event is the
+disjoint union over `S` of the boxes "exactly the coordinates in `S` are `≤ t`"; `Measure.pi_pi`). -/
+theorem count_below_is_binomial (N : ℕ) (ν : Measure ℝ) [SigmaFinite ν] (t : ℝ) (m : ℕ) :
+    (Measure.pi fun _ : Fin N => ν) {u | m ≤ #{j | u j ≤ t}}
+      = ∑ S ∈ (Finset.univ.filter fun S : Finset (Fin N) => m ≤ #S),
+          ν (Set.Iic t) ^ #S * ν (Set.Ioi t) ^ (N - #S) :=
+  Opda.OrderStatBeta.pi_count_ge ν t m
+
+/-- **distribution function of a uniform order statistic**: under the law of `N` independent uniforms on `[0,1]`, for
+`k : Fin N` (0-based: `orderStat u k` is the `(k+1)`-th smallest) and `t ∈ [0,1]`,
+`P[U₍ₖ₎ ≤ t] = Σ_{j=k+1}^{N} C(N,j) t^j (1−t)^{N−j}` — "at least `k+1` of the `N` points are `≤ t`"
+(`orderStat_le_iff_count`), a Binomial(N,t) upper tail (`count_below_is_binomial`, grouped by `|S|`). -/
+theorem uniform_order_statistic_cdf (N : ℕ) (k : Fin N) (t : ℝ) (ht0 : 0 ≤ t) (ht1 : t ≤ 1) :
+    (Measure.pi fun _ : Fin N => (volume : Measure ℝ).restrict (Set.Icc 0 1)) {u | orderStat u k ≤ t}
+      = ENNReal.ofReal (∑ j ∈ Finset.Icc (k.val + 1) N, (N.choose j : ℝ) * t ^ j * (1 - t) ^ (N - j)) :=
+  Opda.OrderStatBeta.unif_orderStat_cdf k ht0 ht1
+
+/-- that polynomial is `G (k+1) (N−k) t`, the Beta(k+1, N−k) distribution function of C15 (`C15.beta_cdf_model_exact`:
+the term the driver evaluates in ℚ; `C15.beta_cdf_eq_integral`, `C15.beta_density_normalised`: it is the integral of the
+normalised Beta density) -/
+theorem order_statistic_polynomial_is_beta_cdf (N : ℕ) (k : Fin N) (t : ℝ) :
+    ∑ j ∈ Finset.Icc (k.val + 1) N, (N.choose j : ℝ) * t ^ j * (1 - t) ^ (N - j) = G (k.val + 1) (N - k.val) t :=
+  Opda.OrderStatBeta.binomTail_eq_G k t
+
+/-- **a uniform order statistic is Beta distributed**: `P[U₍ₖ₎ ≤ t] = ∫₀ᵗ κ · s^k (1−s)^{N−1−k} ds` with
+`κ = betaNorm (k+1) (N−k) = N·C(N−1,k) = 1/B(k+1, N−k)` (the density integrates to one over `[0,1]`:
+`C15.beta_density_normalised`).  1-based: the `i`-th smallest of `N` independent uniforms is Beta(i, N+1−i). -/
+theorem uniform_order_statistic_is_beta (N : ℕ) (k : Fin N) (t : ℝ) (ht0 : 0 ≤ t) (ht1 : t ≤ 1) :
+    (Measure.pi fun _ : Fin N => (volume : Measure ℝ).restrict (Set.Icc 0 1)) {u | orderStat u k ≤ t}
+      = ENNReal.ofReal (∫ s in (0:ℝ)..t,
+          (betaNorm (k.val + 1) (N - k.val) : ℝ) * (s ^ k.val * (1 - s) ^ (N - 1 - k.val))) :=
+  Opda.OrderStatBeta.unif_orderStat_beta_integral k ht0 ht1
+
+/-- the normalising constant in closed form -/
+theorem betaNorm_order_statistic (N : ℕ) (k : Fin N) :
+    betaNorm (k.val + 1) (N - k.val) = N * Nat.choose (N - 1) k.val := Opda.OrderStatBeta.betaNorm_orderStat k
+
+/-- **the coverage of a simulated order statistic is Beta distributed** (what DESIGN §8.7 used to cite): let `ν` be a
+probability measure on `ℝ` with continuous distribution function `F = cdfOf ν` — for the ld methods, the law of the
+test statistic `T = max_i cov_i(U₍ᵢ₎)`, whose distribution function at a critical value is the coverage of the band
+with that critical value (`ld_box_iff_stat`).  For `N` independent draws `T₁..T_N` from `ν` and `k : Fin N`,
+`P[F(T₍ₖ₎) ≤ t] = ∫₀ᵗ betaPDF(k+1, N−k)` for `t ∈ [0,1]`: the coverage obtained by using the `(k+1)`-th smallest
+simulated statistic as critical value follows Beta(k+1, N−k) (1-based: `F(T_(i)) ∼ Beta(i, N+1−i)`), whatever `ν` is.
+Proof: `pit_product`, `orderStat_comp_monotone`, `uniform_order_statistic_is_beta`.
+What this does NOT say: that the law of the code's statistic has a continuous distribution function (hypothesis `hF`),
+nor that `np.quantile(ts, confidence)` is exactly an order statistic — it is a linear interpolation between two adjacent
+ones, see `interpolated_critical_value_coverage_between_betas`. -/
+theorem simulated_critical_value_coverage_is_beta (ν : Measure ℝ) [IsProbabilityMeasure ν]
+    (hF : Continuous (cdfOf ν)) (N : ℕ) (k : Fin N) (t : ℝ) (ht0 : 0 ≤ t) (ht1 : t ≤ 1) :
+    (Measure.pi fun _ : Fin N => ν) {y | cdfOf ν (orderStat y k) ≤ t}
+      = ENNReal.ofReal (∫ s in (0:ℝ)..t,
+          (betaNorm (k.val + 1) (N - k.val) : ℝ) * (s ^ k.val * (1 - s) ^ (N - 1 - k.val))) :=
+  Opda.OrderStatBeta.orderStat_coverage_beta hF k ht0 ht1
+
+/-- the same with the binomial-tail polynomial (the exact-ℚ term `beta.cdf` of the driver, `C15.beta_cdf_model_exact`) -/
+theorem simulated_critical_value_coverage_cdf (ν : Measure ℝ) [IsProbabilityMeasure ν]
+    (hF : Continuous (cdfOf ν)) (N : ℕ) (k : Fin N) (t : ℝ) (ht0 : 0 ≤ t) (ht1 : t ≤ 1) :
+    (Measure.pi fun _ : Fin N => ν) {y | cdfOf ν (orderStat y k) ≤ t}
+      = ENNReal.ofReal (∑ j ∈ Finset.Icc (k.val + 1) N, (N.choose j : ℝ) * t ^ j * (1 - t) ^ (N - j)) :=
+  Opda.OrderStatBeta.orderStat_coverage_cdf hF k ht0 ht1
+
+/-- **the interpolated quantile the code uses**: `np.quantile(ts, q)` (default `method="linear"`) returns
+`T₍ₖ₎ + λ (T₍ₖ₊₁₎ − T₍ₖ₎)` with, 0-based, `k = ⌊q(N−1)⌋` and `λ = q(N−1) − k ∈ [0,1)` (1-based: between the `k`-th and
+`(k+1)`-th smallest with `k = ⌊q(N−1)⌋+1`; this description of numpy is NOT formalised).  For any `k ≤ k'`, `λ ∈ [0,1]`,
+the coverage `F(c)` of `c = T₍ₖ₎ + λ (T₍ₖ'₎ − T₍ₖ₎)` satisfies `F(T₍ₖ₎) ≤ F(c) ≤ F(T₍ₖ'₎)`, hence its distribution
+function is bracketed by those of the two Beta laws:
+`BetaCDF(k'+1, N−k')(t) ≤ P[F(c) ≤ t] ≤ BetaCDF(k+1, N−k)(t)`.  Nothing more is claimed: the coverage of the code's
+critical value is NOT itself Beta distributed; it lies between two such variables, which is why the harness accepts
+the lower quantile of the smaller law up to the upper quantile of the larger one. -/
+theorem interpolated_critical_value_coverage_between_betas (ν : Measure ℝ) [IsProbabilityMeasure ν]
+    (hF : Continuous (cdfOf ν)) (N : ℕ) (k k' : Fin N) (hkk : k ≤ k') (lam : ℝ) (h0 : 0 ≤ lam) (h1 : lam ≤ 1)
+    (t : ℝ) (ht0 : 0 ≤ t) (ht1 : t ≤ 1) :
+    ENNReal.ofReal (G (k'.val + 1) (N - k'.val) t)
+        ≤ (Measure.pi fun _ : Fin N => ν) {y | cdfOf ν (orderStat y k + lam * (orderStat y k' - orderStat y k)) ≤ t}
+      ∧ (Measure.pi fun _ : Fin N => ν) {y | cdfOf ν (orderStat y k + lam * (orderStat y k' - orderStat y k)) ≤ t}
+        ≤ ENNReal.ofReal (G (k.val + 1) (N - k.val) t) :=
+  Opda.OrderStatBeta.interpolated_quantile_coverage hF k k' hkk h0 h1 ht0 ht1
+
+/-- the general form: any critical value `c(T)` with `T₍ₖ₎ ≤ c(T) ≤ T₍ₖ'₎` for every sample -/
+theorem critical_value_between_order_statistics (ν : Measure ℝ) [IsProbabilityMeasure ν]
+    (hF : Continuous (cdfOf ν)) (N : ℕ) (k k' : Fin N) (c : (Fin N → ℝ) → ℝ)
+    (hc : ∀ y, orderStat y k ≤ c y ∧ c y ≤ orderStat y k') (t : ℝ) (ht0 : 0 ≤ t) (ht1 : t ≤ 1) :
+    ENNReal.ofReal (G (k'.val + 1) (N - k'.val) t) ≤ (Measure.pi fun _ : Fin N => ν) {y | cdfOf ν (c y) ≤ t}
+      ∧ (Measure.pi fun _ : Fin N => ν) {y | cdfOf ν (c y) ≤ t} ≤ ENNReal.ofReal (G (k.val + 1) (N - k.val) t) :=
+  Opda.OrderStatBeta.coverage_between_betas hF k k' c hc ht0 ht1
+
+/-- non-vacuity at the code's size: `N = 100 000` trials, `confidence = 0.95`: `k = ⌊0.95·99 999⌋ = 94 999` (0-based) and
+`k' = 95 000`, `λ = 0.05`, a law with continuous distribution function (standard normal), a level `t ∈ [0,1]` -/
+example : ∃ (ν : Measure ℝ) (_ : IsProbabilityMeasure ν) (N : ℕ) (k k' : Fin N) (lam t : ℝ),
+    Continuous (cdfOf ν) ∧ k ≤ k' ∧ 0 ≤ lam ∧ lam ≤ 1 ∧ 0 ≤ t ∧ t ≤ 1 :=
+  ⟨ProbabilityTheory.gaussianReal 0 1, inferInstance, 100000, ⟨94999, by norm_num⟩, ⟨95000, by norm_num⟩, 1/20, 19/20,
+    Opda.RectProbP.gaussian_cdfOf_continuous, by simp [Fin.le_def], by norm_num, by norm_num, by norm_num, by norm_num⟩
+
+/-- a worked value: the smaller of two independent uniforms is `≤ 1/2` with probability `3/4` -/
+example : (Measure.pi fun _ : Fin 2 => (volume : Measure ℝ).restrict (Set.Icc 0 1)) {u | orderStat u 0 ≤ 1/2}
+    = ENNReal.ofReal (3/4) := by
+  rw [uniform_order_statistic_cdf 2 0 (1/2) (by norm_num) (by norm_num)]
+  congr 1
+  norm_num [Finset.sum_Icc_succ_top, Nat.choose]
+
+end beta
 
 end Opda.Props.C01
 
